@@ -177,7 +177,10 @@ def propagate_equalities(pc, goal, rounds=6):
     return pc, goal
 
 
-class SerExecutor(Executor):
+from contracts.etree_model import ETreeMixin
+
+
+class SerExecutor(ETreeMixin, Executor):
     def __init__(self, *a, **k):
         super().__init__(*a, **k)
         self.witness_terms = {}
@@ -360,6 +363,10 @@ class SerExecutor(Executor):
             return [] if ok is None else [(ok, PV(args[0].t, fresh=True))]
         if name == "bool" and args and isinstance(args[0], PV):
             return [(st, self.truth(st, args[0]))]
+        if name == "float" and len(args) == 1 and isinstance(args[0], VStr):
+            # float(text): ValueError for text that is not a number, else some float (finite or not: PY-FLOAT-REAL covers finite only)
+            self.raise_in(st.fork(), self.mk_exc("ValueError"))
+            return [(st, VReal(z3.Real(fresh_name("float_of_text"))))]
         if name == "int" and args and isinstance(args[0], PV):
             tt = args[0].t
             s2 = self.fork_raise(st, sp.norm(z3.Not(z3.Or(V.is_Int(tt), V.is_Bool(tt), V.is_Float(tt), V.is_Str(tt)))), "TypeError")
